@@ -98,10 +98,12 @@ def run(res, tier, build_ok):
             optional = fopt + [x for x in copt if x not in fopt]
             if c["cls"].startswith("ATAPassThrough"):
                 optional = [x for x in optional if x != "blocksize"] + ["blocksize"]
+            injected_done = False
             for sn, enum in sets.items():
                 op = cmds.find_op(enum, s["opname"])
                 if op is None:
                     continue
+                res.count("method x command set")
                 subsets = list(optional_subsets(optional))
                 if sn != "sbc" and len(subsets) > 4:
                     subsets = rng.sample(subsets, 4)
@@ -133,7 +135,8 @@ def run(res, tier, build_ok):
                         if "est" in args:
                             args["est"] = rng.choice([2, 4])
                         if "mcsb" in args:
-                            args["mcsb"] = rng.choice([0x00, 0x02, 0x03])
+                            # EDC/ECC (bit 0) has a defined layout only for a stated expected sector type
+                            args["mcsb"] = rng.choice([0x00, 0x02, 0x03] if "est" in args else [0x00, 0x02])
                         if "c2ei" in args:
                             args["c2ei"] = rng.choice([0, 1, 2])
                         if "scsb" in args:
@@ -218,7 +221,10 @@ def run(res, tier, build_ok):
                             continue
                     reqs.append(("facaderun %d ok ok ok" % (1 if m["unmarshall"] is not None else 0),
                                  "ok execs=1 trace=%s returned" % ("c,e,u,r" if m["unmarshall"] is not None else "c,e,r"), meth))
-                # failure injection: the device raises -> same exception, one send, nothing decoded
+                # failure injection (once per method): the device raises -> same exception, one send, nothing decoded
+                if injected_done:
+                    continue
+                injected_done = True
                 op0 = [cmds.find_op(e, s["opname"]) for e in sets.values()]
                 enum0 = [e for e in sets.values() if cmds.find_op(e, s["opname"]) is not None][0]
 
@@ -252,7 +258,6 @@ def run(res, tier, build_ok):
                         break
                 res.count("device failure injections")
                 reqs.append(("facaderun %d ok err ok" % (1 if m["unmarshall"] is not None else 0), "ok execs=1 trace=c,e raised", meth))
-                break
     # ---- histories: the same facade method called again while the caller still holds the earlier results.  Every call
     #      must hand the device a command and buffers of its own (a buffer handed over by two commands is handed over
     #      twice), fresh (zero-filled) on entry, and an earlier result must stay as the device left it.  Sizes include
